@@ -618,5 +618,70 @@ def r16_12(ctx):
     return r
 
 
+FAMILY_CONVERSIONS = ("::to_canonical", "::to_ipv4", "::to_ipv4_mapped", "::to_ipv6_mapped", "::to_ipv6_compatible")
+
+
+def r16_13(ctx):
+    """'decode to the same ... attribute values, for IPv4 and IPv6 XOR-mapped, XOR-peer and XOR-relayed addresses': the
+    address family is a wire field (0x01 / 0x02). The encoder picks it from the SocketAddr variant; the decoder has to
+    give the same variant back, or a family-0x02 attribute in ::ffff:0:0/96 reads back as an IPv4 address (what an
+    independent implementation never does) and encode -> decode stops being the identity. Decided, type-level: in
+    parse_xor_address every SocketAddr built in the arm of family 0x01 is built from an Ipv4Addr, every one in the arm of
+    family 0x02 from an Ipv6Addr (never from the family-erased IpAddr), and no function of the STUN codec calls one of
+    std's family-converting methods."""
+    r = RuleResult("R16.13", "K6", "XOR address decode keeps the address family of the wire")
+    fn = "transports::ice::stun::parse_xor_address"
+    b = ctx.body(fn)
+    r.scope.append(fn)
+    fam_switch = None
+    for sb in range(len(b.blocks)):
+        if b.blocks[sb]["t"]["k"] != "switch":
+            continue
+        term, outs = b.switch_info(sb)
+        vals = {m: tgt for tgt, _, m in outs if isinstance(m, int)}
+        if 1 in vals and 2 in vals and len([m for m in vals]) == 2:
+            fam_switch = (sb, vals)
+            break
+    if fam_switch is None:
+        raise core.CheckerError("R16.13: family switch (0x01 / 0x02) not found in parse_xor_address")
+    sb, vals = fam_switch
+    want = {1: "Ipv4Addr", 2: "Ipv6Addr"}
+    built = 0
+    for fam, tgt in sorted(vals.items()):
+        other = vals[3 - fam]
+        region = body_region = b.reachable([tgt]) - b.reachable([other])
+        for bi, t, path in b.calls():
+            if bi not in region or "p" in t["dst"]:
+                continue
+            if b.locals[t["dst"]["l"]]["ty"] != "std::net::SocketAddr":
+                continue
+            built += 1
+            tys = []
+            for a in t["a"]:
+                pl = a.get("p")
+                if isinstance(pl, dict):
+                    tys.append(b.locals[pl["l"]]["ty"])
+            joined = " ".join(tys)
+            if want[fam] in joined and "IpAddr" not in joined.replace("Ipv4Addr", "").replace("Ipv6Addr", "") and want[3 - fam] not in joined:
+                r.ok({"family": fam, "site": b.where(bi), "built from": joined})
+            else:
+                r.violate(fn, "family:%d:built-from" % fam, b.where(bi),
+                          "the address of a family-0x%02x attribute is not built from an %s (argument types: %s): the decoded "
+                          "value can change family" % (fam, want[fam], joined))
+    r.need("SocketAddr constructions in the family arms", built, 2)
+    n = 0
+    for nb in ctx.facts.bodies(prefix="transports::ice::stun::"):
+        if "::tests::" in nb.name:
+            continue
+        n += 1
+        for bi, t, path in nb.calls():
+            if path and path.startswith(("std::net::", "core::net::")) and path.endswith(FAMILY_CONVERSIONS):
+                r.violate(nb.name, "family-conversion:%s" % path.split("::")[-1], nb.where(bi),
+                          "the STUN codec converts an address between families (%s): what is decoded / encoded is no longer the address on the wire" % path)
+    r.need("STUN codec bodies scanned", n, 10)
+    r.ok({"family-converting std calls in transports::ice::stun": 0})
+    return r
+
+
 def run(ctx):
-    return [r16_1(ctx), r16_2(ctx), r16_3(ctx), r16_4(ctx), r16_5(ctx), r16_6(ctx), r16_7(ctx), r16_8(ctx), r16_9(ctx), r16_10(ctx), r16_11(ctx), r16_12(ctx)]
+    return [r16_1(ctx), r16_2(ctx), r16_3(ctx), r16_4(ctx), r16_5(ctx), r16_6(ctx), r16_7(ctx), r16_8(ctx), r16_9(ctx), r16_10(ctx), r16_11(ctx), r16_12(ctx), r16_13(ctx)]
